@@ -152,8 +152,13 @@ func materialise(g generation, root string, children []*node, b *built, rel stri
 			must(os.WriteFile(filepath.Join(root, p), []byte("package x // user "+p), 0o644))
 			b.user[p] = true
 		case kOther:
-			names := []string{"notes%d.txt", "data%d.gr.go.bak", "x%d.gr.json", ".hidden%d", "Makefile%d", "y%d.GR.GO", "z%d.gr.go~", "m%d-" + g.manifest, g.manifest + ".%d.bak", "README%d.gr.md"}
-			p := filepath.Join(rel, fmt.Sprintf(names[(i+len(rel))%len(names)], i))
+			names := []string{"notes%d.txt", "data%d.gr.go.bak", "x%d.gr.json", ".hidden%d", "Makefile%d", "y%d.GR.GO", "z%d.gr.go~", "m%d-" + g.manifest, g.manifest + ".%d.bak", "README%d.gr.md",
+				".DS_Store", "Thumbs.db", "desktop.ini", ".gitkeep", ".gitignore"}
+			name := names[(i+len(rel))%len(names)]
+			if strings.Contains(name, "%d") {
+				name = fmt.Sprintf(name, i)
+			}
+			p := filepath.Join(rel, name)
 			must(os.WriteFile(filepath.Join(root, p), []byte("user data "+p), 0o600))
 			b.user[p] = true
 		case kEmptyDir:
@@ -485,6 +490,57 @@ func regenCases(run *ev.Run, scratch string, rng *rand.Rand, n int) {
 	if len(refHash) < 5 {
 		run.Inconclusive("reference generation produced too few files")
 		return
+	}
+	// the same generation below <output>/<package root> (--generate-with-package-root): what an earlier run without the
+	// flag, or under another package root, left anywhere in the output directory is still the generator's to remove
+	{
+		run.Eval(1)
+		dir := filepath.Join(base, "with-root")
+		must(os.MkdirAll(dir, 0o755))
+		generateWithRoot := func() error {
+			cmd := exec.Command(genBin, dir, manifest, dep)
+			cmd.Env = append(os.Environ(), "VERIF_GEN_WITH_PACKAGE_ROOT=1")
+			out, err := cmd.CombinedOutput()
+			if err != nil {
+				return fmt.Errorf("%v: %s", err, tail(string(out)))
+			}
+			return nil
+		}
+		if err := generateWithRoot(); err != nil {
+			run.Violation("v2/regen/generator-failed-with-package-root", map[string]any{"error": err.Error()})
+		} else {
+			first := hashTree(dir, g.suffix, g.manifest)
+			stale := []string{"old/pkg/Stale" + g.suffix, "old/" + g.manifest, "Top" + g.suffix, "other.example/root/x/Y" + g.suffix}
+			for _, rel := range stale {
+				p := filepath.Join(dir, rel)
+				must(os.MkdirAll(filepath.Dir(p), 0o755))
+				must(os.WriteFile(p, []byte("// stale generated"), 0o444))
+			}
+			userFile := filepath.Join(dir, "old", "keep.txt")
+			must(os.WriteFile(userFile, []byte("keep"), 0o644))
+			was, _ := fp(userFile)
+			desc := map[string]any{"case": "regenerate with --generate-with-package-root over stale output elsewhere in the output directory"}
+			if err := generateWithRoot(); err != nil {
+				desc["error"] = err.Error()
+				run.Violation("v2/regen/generator-failed-with-package-root", desc)
+			} else {
+				for _, rel := range stale {
+					if _, ok := fp(filepath.Join(dir, rel)); ok {
+						desc["file"] = rel
+						run.Violation("v2/regen/stale-generated-file-survives/with-package-root", desc)
+						break
+					}
+				}
+				if now, ok := fp(userFile); !ok || now != was {
+					run.Violation("v2/regen/user-file-touched", desc)
+				}
+				if second := hashTree(dir, g.suffix, g.manifest); fmt.Sprint(second) != fmt.Sprint(first) {
+					desc["diff"] = diffMaps(first, second)
+					run.Violation("v2/regen/generated-files-differ-from-fresh-generation/with-package-root", desc)
+				}
+				run.Count("regen_with_package_root_cases", 1)
+			}
+		}
 	}
 	var genDirs []string
 	seen := map[string]bool{}
